@@ -451,6 +451,22 @@ def _m_sig(f, case):
     return case.get("sig") == f["sig"]
 
 
+@matcher("all_regex")
+def _m_all_regex(f, case):
+    """finding: {"all": [[field, regex], ...]}: every listed field of the case matches its regex."""
+    for field, rx in f["all"]:
+        v = case
+        for part in field.split("."):
+            if not isinstance(v, dict) or part not in v:
+                return False
+            v = v[part]
+        if not isinstance(v, str):
+            v = json.dumps(v)
+        if re.search(rx, v, re.S) is None:
+            return False
+    return True
+
+
 @matcher("cls_only")
 def _m_cls_only(f, case):
     """finding: {"cls": [...]}: the case's attribution classes are non-empty and all listed."""
